@@ -1060,7 +1060,8 @@ class Product(Expression):
             return One()
         if len(expressions) == 1:
             return expressions[0]
-        return cls(expressions=tuple(sorted(expressions)))
+        # factors whose keys tie are ordered by their text, so the result does not depend on the input order
+        return cls(expressions=tuple(sorted(expressions, key=lambda e: (e._get_key(), e.to_text()))))
 
     def _get_key(self):  # type:ignore
         inner_keys = (sexpr._get_key() for sexpr in self.expressions)
